@@ -214,7 +214,7 @@ func famClient(r *hx.Rng, o *sink, e *env) {
 				}
 			}
 			switch {
-			case k < 40: // new latest height
+			case k < 37: // new latest height
 				if hn <= latest && st == "active" { // no newer honest header yet: let time pass
 					now += int64(10+r.Intn(40)) * sec
 					hn = uint64((now - t0) / step)
@@ -224,27 +224,41 @@ func famClient(r *hx.Rng, o *sink, e *env) {
 					h = hn - uint64(r.Intn(int(min64(hn-latest, 4))))
 				}
 				update(cp.header(e, h, honestTs(h), root32('a', h), trustedFor(v, h), false), "new")
-			case k < 55: // past height filling a gap
+			case k < 52: // past height filling a gap
 				lo := v.heights[0].RevisionHeight
 				if latest <= lo+1 {
 					continue
 				}
 				h := lo + 1 + uint64(r.Intn(int(latest-lo-1)))
 				update(cp.header(e, h, honestTs(h), root32('a', h), trustedFor(v, h), false), "gap")
-			case k < 63: // resubmission of a stored header
+			case k < 60: // resubmission of a stored header
 				hh := v.heights[r.Intn(len(v.heights))]
 				c := v.cons[hh]
 				update(cp.header(e, hh.RevisionHeight, c.Timestamp.UnixNano(), c.Root.Hash, trustedFor(v, hh.RevisionHeight), false), "duplicate")
-			case k < 70: // conflicting header for a stored height: other app hash and/or other time
+			case k < 70: // conflicting header for a stored height: every field of the consensus state alone, and combinations
 				hh := v.heights[r.Intn(len(v.heights))]
+				if len(v.heights) > 1 && r.Chance(4, 5) { // a height with a stored (trustable) height below it
+					hh = v.heights[1+r.Intn(len(v.heights)-1)]
+				}
 				c := v.cons[hh]
 				ts, root := c.Timestamp.UnixNano(), c.Root.Hash
-				if r.Bool() {
-					root = root32('b', hh.RevisionHeight)
-				} else {
+				signer := cp
+				tag := ""
+				mode := r.Intn(5)
+				if mode == 0 || (mode == 4 && r.Bool()) {
 					ts += int64(1 + r.Intn(3))
+					tag += "-time"
 				}
-				update(cp.header(e, hh.RevisionHeight, ts, root, trustedFor(v, hh.RevisionHeight), false), "conflict")
+				if mode == 1 || (mode == 4 && r.Bool()) {
+					root = root32('b', hh.RevisionHeight)
+					tag += "-root"
+				}
+				if mode == 2 || mode == 3 || (mode == 4 && (tag == "" || r.Bool())) {
+					// same height, time and app hash, validly signed, but another next validator set
+					signer = cp.withNext(root32('n', hh.RevisionHeight+uint64(r.Intn(3))))
+					tag += "-nvh"
+				}
+				update(signer.header(e, hh.RevisionHeight, ts, root, trustedFor(v, hh.RevisionHeight), false), "conflict"+tag)
 			case k < 80: // time outside the neighbours' range (or exactly a neighbour's time)
 				lo := v.heights[0].RevisionHeight
 				h := latest + 1 + uint64(r.Intn(4))
